@@ -1,4 +1,4 @@
-(* C19 - theorems about the outline of a whole file: ranges (repaired rule fx = true). *)
+(* C19 - theorems about the outline of a whole file: ranges (repaired rules, fx_all). *)
 From Coq Require Import List NArith ZArith Bool Lia ZifyBool.
 From LH Require Import Base.Bytes Base.Res Model.Lexer Model.Ast Model.Parser Model.LuaFront Model.Symbols Spec.SymbolSpec
   Proofs.SymbolsRange Proofs.SymbolsLocs Proofs.SymbolsMerge Proofs.SymbolsWitness.
@@ -64,10 +64,10 @@ Section WithP.
   (* every entry of the outline is var_sym of a variable all of whose Locs satisfy P *)
   Lemma outline_entry_ok : forall fx n b st s,
       locs_block P b = true -> analyse n b = Ok st -> In s (find_all_symbol fx (finalize st)) ->
-      exists lc nm v, vi_ok P v /\ s = var_sym fx lc nm v.
+      exists lc nm v u, vi_ok P v /\ s = set_undecl u (var_sym fx lc nm v).
   Proof.
     intros fx n b st s Hb Ha Hin. pose proof (finalize_ok _ (analyse_ok _ _ _ Hb Ha)) as [He Hg Hn].
-    apply (find_all_symbol_entry (vi_ok P) fx (finalize st) s); [| exact Hg | exact Hin].
+    apply (find_all_symbol_entry (vi_ok P) fx (finalize st) s); [| exact Hg | exact Hn | exact Hin].
     unfold main_scope. destruct (env (finalize st)) as [|fr rest].
     - apply scope_all_unfold. split; constructor.
     - inversion He; assumption.
@@ -78,39 +78,42 @@ End WithP.
 Lemma well_formed_zero : well_formed zero_loc = true.
 Proof. reflexivity. Qed.
 
-Lemma child_sym_loc_ok : forall P nm k sv, vi_ok P sv -> P (c_loc (child_sym nm k sv)) = true.
+Lemma child_sym_loc_ok : forall nm k sv, vi_ok well_formed sv -> well_formed (c_loc (child_sym fx_all nm k sv)) = true.
 Proof.
-  intros P nm k sv Hsv. unfold child_sym. pose proof (vi_ok_func P _ Hsv) as Hf. pose proof (vi_ok_loc P _ Hsv) as Hl.
-  destruct (v_func sv); cbn [c_loc]; [exact Hf | exact Hl].
+  intros nm k sv Hsv. unfold child_sym. pose proof (vi_ok_func well_formed _ Hsv) as Hf.
+  pose proof (vi_ok_loc well_formed _ Hsv) as Hl.
+  destruct (v_func sv); cbn [c_loc]; [apply loc_union_wf; [exact Hf | exact Hl] | exact Hl].
 Qed.
 
 Lemma var_sym_wf : forall lc nm v,
     vi_ok well_formed v ->
-    well_formed (s_loc (var_sym true lc nm v)) = true /\
-    forall c, In c (s_children (var_sym true lc nm v)) -> well_formed (c_loc c) = true.
+    well_formed (s_loc (var_sym fx_all lc nm v)) = true /\
+    forall c, In c (s_children (var_sym fx_all lc nm v)) -> well_formed (c_loc c) = true.
 Proof.
-  intros lc nm v Hv. split.
-  - destruct (v_func v) as [fi|] eqn:Ef.
-    + rewrite (var_sym_fn_loc true lc nm v fi Ef). pose proof (vi_ok_func _ _ Hv) as Hf. rewrite Ef in Hf. exact Hf.
-    + rewrite (var_sym_nonfn_loc lc nm v Ef), parent_loc_fixed. unfold well_formed. cbn [sl sc el ec].
-      eapply pos_le_trans; [|apply max_end_ge_start]. apply (vi_ok_loc _ _ Hv).
-  - intros c Hc. apply var_sym_child_form in Hc. destruct Hc as [k [sv [Hin [_ ->]]]].
+  intros lc nm v Hv.
+  assert (Hch : forall c, In c (s_children (var_sym fx_all lc nm v)) -> well_formed (c_loc c) = true).
+  { intros c Hc. apply var_sym_child_form in Hc. destruct Hc as [k [sv [Hin [_ ->]]]].
     apply child_sym_loc_ok. pose proof (vi_ok_sub _ _ Hv) as Hs. unfold subs_ok in Hs. rewrite Forall_forall in Hs.
-    apply (Hs _ Hin).
+    apply (Hs _ Hin). }
+  split; [|exact Hch].
+  destruct (v_func v) as [fi|] eqn:Ef.
+  - rewrite (var_sym_fn_loc fx_all lc nm v fi Ef). pose proof (vi_ok_func _ _ Hv) as Hf. rewrite Ef in Hf.
+    apply loc_union_wf; [exact Hf | apply (vi_ok_loc _ _ Hv)].
+  - rewrite (var_sym_nonfn_loc lc nm v Ef). apply hull_wf; [apply (vi_ok_loc _ _ Hv) | exact Hch].
 Qed.
 
 Theorem outline_ranges_wf : forall n b st s,
-    layout_wf b = true -> analyse n b = Ok st -> In s (find_all_symbol true (finalize st)) ->
+    layout_wf b = true -> analyse n b = Ok st -> In s (find_all_symbol fx_all (finalize st)) ->
     well_formed (s_loc s) = true /\ forall c, In c (s_children s) -> well_formed (c_loc c) = true.
 Proof.
   intros n b st s Hb Ha Hin.
-  destruct (outline_entry_ok well_formed well_formed_zero true n b st s Hb Ha Hin) as [lc [nm [v [Hv ->]]]].
-  apply var_sym_wf. exact Hv.
+  destruct (outline_entry_ok well_formed well_formed_zero fx_all n b st s Hb Ha Hin) as [lc [nm [v [u [Hv ->]]]]].
+  cbn [set_undecl s_loc s_children]. apply var_sym_wf. exact Hv.
 Qed.
 
 Theorem outline_of_bytes_wf : forall bs b ss s,
     parse_bytes no_gbk classify_tok bs = Ok (PR b [] []) -> layout_wf b = true ->
-    outline_of_bytes true bs = Some ss -> In s ss ->
+    outline_of_bytes fx_all bs = Some ss -> In s ss ->
     well_formed (s_loc s) = true /\ forall c, In c (s_children s) -> well_formed (c_loc c) = true.
 Proof.
   intros bs b ss s Hp Hl Ho Hin. apply outline_of_bytes_inv in Ho. destruct Ho as [b' [st [Hp' [Ha ->]]]].
@@ -118,55 +121,65 @@ Proof.
 Qed.
 
 (* ------------------------------------------------------------------ C19_range_contains_decl / children_inside *)
-(* for EVERY file (no layout hypothesis): an entry that is not function-valued starts at its declaring identifier,
-   contains it, ends at the largest end among its own identifier and its children; a child that is not function
-   valued is located at its declaring identifier *)
-Theorem outline_nonfn_range : forall bs ss s,
-    outline_of_bytes true bs = Some ss -> In s ss -> s_fn s = false ->
+(* for EVERY file (no layout hypothesis): every entry and every child entry contains its declaring identifier *)
+Theorem outline_contains_decl : forall bs ss s,
+    outline_of_bytes fx_all bs = Some ss -> In s ss ->
     contains (s_loc s) (s_decl s) = true /\
-    sl (s_loc s) = sl (s_decl s) /\ sc (s_loc s) = sc (s_decl s) /\
-    (forall c, In c (s_children s) -> pos_le (el (c_loc c)) (ec (c_loc c)) (el (s_loc s)) (ec (s_loc s)) = true) /\
-    ((el (s_loc s), ec (s_loc s)) = (el (s_decl s), ec (s_decl s)) \/
-     exists c, In c (s_children s) /\ (el (s_loc s), ec (s_loc s)) = (el (c_loc c), ec (c_loc c))).
+    forall c, In c (s_children s) -> contains (c_loc c) (c_decl c) = true.
 Proof.
-  intros bs ss s Ho Hin Hfn. apply outline_of_bytes_inv in Ho. destruct Ho as [b [st [_ [_ ->]]]].
-  apply find_all_symbol_var_sym in Hin. destruct Hin as [lc [nm [v ->]]].
-  split; [apply var_sym_nonfn_contains; exact Hfn|].
-  destruct (var_sym_nonfn_range lc nm v Hfn) as [H1 [H2 [_ [H4 H5]]]]. auto.
+  intros bs ss s Ho Hin. apply outline_of_bytes_inv in Ho. destruct Ho as [b [st [_ [_ ->]]]].
+  apply find_all_symbol_var_sym in Hin. destruct Hin as [lc [nm [v [u ->]]]]. cbn [set_undecl s_loc s_decl s_children].
+  split; [apply var_sym_contains_decl|].
+  intros c Hc. destruct (var_sym_child_form _ _ _ _ _ Hc) as [k [sv [_ [_ ->]]]]. apply child_sym_contains_decl.
 Qed.
 
+(* every child lies inside its parent *)
+Theorem outline_children_inside : forall bs ss s c,
+    outline_of_bytes fx_all bs = Some ss -> In s ss -> In c (s_children s) -> contains (s_loc s) (c_loc c) = true.
+Proof.
+  intros bs ss s c Ho Hin Hc. apply outline_of_bytes_inv in Ho. destruct Ho as [b [st [_ [_ ->]]]].
+  apply find_all_symbol_var_sym in Hin. destruct Hin as [lc [nm [v [u ->]]]]. cbn [set_undecl s_loc s_children] in *.
+  apply var_sym_contains_child. exact Hc.
+Qed.
+
+(* only entries that are not function-valued have children; a child that is not function-valued is located at its
+   declaring identifier *)
 Theorem outline_children : forall fx bs ss s c,
     outline_of_bytes fx bs = Some ss -> In s ss -> In c (s_children s) ->
     s_fn s = false /\ (c_fn c = false -> c_loc c = c_decl c).
 Proof.
   intros fx bs ss s c Ho Hin Hc. apply outline_of_bytes_inv in Ho. destruct Ho as [b [st [_ [_ ->]]]].
-  apply find_all_symbol_var_sym in Hin. destruct Hin as [lc [nm [v ->]]].
+  apply find_all_symbol_var_sym in Hin. destruct Hin as [lc [nm [v [u ->]]]]. cbn [set_undecl s_fn s_children] in *.
   destruct (var_sym_child_form _ _ _ _ _ Hc) as [k [sv [_ [Hf ->]]]]. split.
   - rewrite var_sym_fn, Hf. reflexivity.
   - apply child_sym_nonfn.
 Qed.
 
-Lemma outline_contains_decl_partial :
-  forall bs ss s,
-    outline_of_bytes true bs = Some ss -> In s ss ->
-    (s_fn s = false ->
-     contains (s_loc s) (s_decl s) = true /\ sl (s_loc s) = sl (s_decl s) /\ sc (s_loc s) = sc (s_decl s)) /\
-    (forall c, In c (s_children s) -> c_fn c = false -> contains (c_loc c) (c_decl c) = true).
+(* the range of an entry is the SMALLEST one that contains its identifier and its children: an entry that is not
+   function-valued starts at the start of its identifier or of a child and ends at the end of its identifier or of a
+   child; without children it is the identifier itself *)
+Theorem outline_range_tight : forall bs ss s,
+    outline_of_bytes fx_all bs = Some ss -> In s ss -> s_fn s = false ->
+    ((sl (s_loc s), sc (s_loc s)) = (sl (s_decl s), sc (s_decl s)) \/
+     exists c, In c (s_children s) /\ (sl (s_loc s), sc (s_loc s)) = (sl (c_loc c), sc (c_loc c))) /\
+    ((el (s_loc s), ec (s_loc s)) = (el (s_decl s), ec (s_decl s)) \/
+     exists c, In c (s_children s) /\ (el (s_loc s), ec (s_loc s)) = (el (c_loc c), ec (c_loc c))).
 Proof.
-  intros bs ss s Ho Hin. split.
-  - intros Hfn. destruct (outline_nonfn_range bs ss s Ho Hin Hfn) as [H1 [H2 [H3 _]]]. auto.
-  - intros c Hc Hfn. destruct (outline_children _ bs ss s c Ho Hin Hc) as [_ H]. rewrite (H Hfn). apply contains_refl.
+  intros bs ss s Ho Hin Hfn. apply outline_of_bytes_inv in Ho. destruct Ho as [b [st [_ [_ ->]]]].
+  apply find_all_symbol_var_sym in Hin. destruct Hin as [lc [nm [v [u ->]]]]. cbn [set_undecl s_fn s_loc s_decl s_children] in *.
+  apply (var_sym_nonfn_ends lc nm v Hfn).
 Qed.
 
-Lemma outline_children_inside_partial :
-  forall bs ss s c,
-    outline_of_bytes true bs = Some ss -> In s ss -> In c (s_children s) ->
-    s_fn s = false /\
-    sl (s_loc s) = sl (s_decl s) /\ sc (s_loc s) = sc (s_decl s) /\
-    pos_le (el (c_loc c)) (ec (c_loc c)) (el (s_loc s)) (ec (s_loc s)) = true /\
-    ((el (s_loc s), ec (s_loc s)) = (el (s_decl s), ec (s_decl s)) \/
-     exists c', In c' (s_children s) /\ (el (s_loc s), ec (s_loc s)) = (el (c_loc c'), ec (c_loc c'))).
+Theorem outline_tight : forall bs ss s,
+    outline_of_bytes fx_all bs = Some ss -> In s ss ->
+    (forall c, In c (s_children s) -> s_fn s = false /\ (c_fn c = false -> c_loc c = c_decl c)) /\
+    (s_fn s = false ->
+     ((sl (s_loc s), sc (s_loc s)) = (sl (s_decl s), sc (s_decl s)) \/
+      exists c, In c (s_children s) /\ (sl (s_loc s), sc (s_loc s)) = (sl (c_loc c), sc (c_loc c))) /\
+     ((el (s_loc s), ec (s_loc s)) = (el (s_decl s), ec (s_decl s)) \/
+      exists c, In c (s_children s) /\ (el (s_loc s), ec (s_loc s)) = (el (c_loc c), ec (c_loc c)))).
 Proof.
-  intros bs ss s c Ho Hin Hc. destruct (outline_children _ bs ss s c Ho Hin Hc) as [Hfn _].
-  destruct (outline_nonfn_range bs ss s Ho Hin Hfn) as [_ [H2 [H3 [H4 H5]]]]. repeat split; auto.
+  intros bs ss s Ho Hin. split.
+  - intros c Hc. exact (outline_children fx_all bs ss s c Ho Hin Hc).
+  - intros Hfn. exact (outline_range_tight bs ss s Ho Hin Hfn).
 Qed.
